@@ -24,7 +24,8 @@ THEOREMS = [
     dict(name="Snow.C18.strings_union", clause="a list of requests records the union of the single requests", strength="full"),
     dict(name="Snow.C18.rows_order", clause="a stored column is the temperatures of the recorded vials in index order followed by their ice fractions in the same order", strength="full"),
     dict(name="Snow.C18.subset_eq_full", clause="the rows stored for a subset are the corresponding rows of the full recording (the model's dynamics do not take the mask)", strength="full"),
-    dict(name="Snow.C18.reject_meaningless_partial", clause="requests without key word, with two numbers, with mixed entries or out-of-range indices are rejected; the exception class for a non-sequence request is UnboundLocalError (no else branch), which still rejects", strength="partial"),
+    dict(name="Snow.C18.reject_meaningless", clause="every malformed request (explicit category table on the request type) is rejected at construction with the class of its category: ValueError (intended) or UnboundLocalError / ZeroDivisionError / IndexError (accidental)", strength="full"),
+    dict(name="Snow.C18.accept_well_formed", clause="every other request is accepted: acceptance / rejection at construction is a total decision", strength="full"),
     dict(name="Snow.C18.nonvacuous", clause="hypotheses are satisfiable (concrete requests on a 3x3 shelf)", strength="nonvacuity"),
 ]
 TRUSTED = [
